@@ -323,7 +323,7 @@ def decide(prop, tier, seed):
             if not changed_in_unit:
                 undecided.append("%s/%s: refuted although no extracted text of the unit differs from the baseline (%s)" % (key, fid, clause))
                 continue
-            lost_h = (f or {}).get("hints_lost") or []
+            lost_h = ((f or {}).get("hints_lost") or []) + ((f or {}).get("hints_inexact") or [])
             if (lost_h or fid in (u.get("bare") or [])) and not confirmed_by_input(prop, "%s/%s" % (key, fid)):
                 # the proof annotations of this function were written for a different text: without them the solver cannot
                 # tell a broken property from a missing invariant, so this is no verdict (never an alarm)
@@ -464,7 +464,17 @@ def scan_c20():
                 body_txt = m[lp["hdr_end"]:lp["body_close"]]
                 if ".exec(" in body_txt.replace(" ", "") and lp["kw"] == "for":
                     hdr = gen.norm_ws(m[lp["start"]:lp["hdr_end"]])
-                    if not re.match(r"for \w+ in \w+ ?\. ?(iter|iter_out|iter_in) ?\( ?\)$", hdr):
+                    ok_hdr = bool(re.match(r"for \w+ in \w+ ?\. ?(iter|iter_out|iter_in) ?\( ?\)$", hdr))
+                    mm_id = re.match(r"for \w+ in &? ?(\w+)$", hdr)
+                    if not ok_hdr and mm_id:
+                        # `for edge in &node` / `for edge in node` is IntoIterator for &Node, i.e. the same lazy iterator --
+                        # unless the name is a local that was filled from an iterator or a collection beforehand (a snapshot)
+                        nm = mm_id.group(1)
+                        fn_start = m.rfind("fn ", 0, lp["start"])
+                        binds = re.findall(r"let\s+(?:mut\s+)?%s\s*(?::[^=;]+)?=([^;]*);" % re.escape(nm), m[fn_start:lp["start"]])
+                        snap = any(re.search(r"collect|Vec|vec!|to_vec|cloned|\.map\(|into_iter|\.iter", b_) for b_ in binds)
+                        ok_hdr = not snap
+                    if not ok_hdr:
                         stale.append("line %d: `%s`" % (src.count("\n", 0, lp["start"]) + 1, hdr))
                 elif ".exec(" in body_txt.replace(" ", "") and lp["kw"] != "for" and not any(
                         l2["start"] > lp["start"] and l2["body_close"] < lp["body_close"] and ".exec(" in m[l2["hdr_end"]:l2["body_close"]].replace(" ", "") for l2 in gen.find_loops(m)):
